@@ -878,8 +878,9 @@ namespace bloch::compiler {
         if (!check(TokenType::Semicolon)) {
             bool isFinal = match(TokenType::Final);
 
-            if (check(TokenType::Int) || check(TokenType::Float) || check(TokenType::Char) ||
-                check(TokenType::String) || check(TokenType::Bit) || check(TokenType::Qubit)) {
+            if (check(TokenType::Int) || check(TokenType::Long) || check(TokenType::Float) ||
+                check(TokenType::Boolean) || check(TokenType::Char) || check(TokenType::String) ||
+                check(TokenType::Bit) || check(TokenType::Qubit)) {
                 initializer = parseVariableDeclaration(isFinal, false);
             } else {
                 if (isFinal) {
